@@ -15,7 +15,7 @@ use crate::engine::{guarded, hex, show, unhex, Report, Sys, Tier, Violation};
 use crate::refmodel::head;
 use crate::refmodel::reqvalid::{self, ReqFacts};
 
-pub const RULE: &str = "flows = every state of the redirect-chain graph (original GET / POST with authorization, cookie, content-length, x-keep; statuses {302,307}; Locations {same host /q, other host http://b.test/q, same host https}; both policies; depth 0..3; also a chain whose original request names its Host explicitly) x caller additions: all sequences of length 0..=3 (thorough 0..=4) over the pool {cookie: k=NEW1, cookie: k=NEW2, authorization: NEW, content-length: 0 (with send-body-despite-method), host: h.test, host: h.test:80, host: h.test:443 (default ports spelled out), expect: 100-continue, x-api-key with a value flagged sensitive, connection: close, x-a: 1, X-MiXeD: v, cookie and authorization EQUAL to the inherited ones, a non-UTF-8 cookie value} plus long sequences of n = 4..=60 additions cycling through the pool; restricted to requests the validity model accepts; head written under twelve buffer schedules, once more with failing header() calls (invalid name / value) interspersed (send_body_despite_method() called before, between and after the additions), parsed back and compared in full with the reference head (added in order, derived headers, unsuppressed originals); plus a relative-URI request without any original header x all addition sequences of length 1..=2 over the non-framing, non-Host pool entries. distinct = distinct (flow state, addition sequence) pairs";
+pub const RULE: &str = "flows = every state of the redirect-chain graph (original GET / POST with authorization, cookie, content-length, x-keep; statuses {302,307}; Locations {same host /q, other host http://b.test/q, same host https}; both policies; depth 0..3; also a chain whose original request names its Host explicitly) x caller additions: all sequences of length 0..=3 (thorough 0..=4) over the pool {cookie: k=NEW1, cookie: k=NEW2, authorization: NEW, content-length: 0 (with send-body-despite-method), host: h.test, host: h.test:80, host: h.test:443 (default ports spelled out), expect: 100-continue, x-api-key with a value flagged sensitive, connection: close, x-a: 1, X-MiXeD: v, cookie and authorization EQUAL to the inherited ones, a non-UTF-8 cookie value} plus long sequences of n = 4..=60 additions cycling through the pool, each length with and without a Host among them (so that the Host header is derived); restricted to requests the validity model accepts; head written under twelve buffer schedules, once more with failing header() calls (invalid name / value) interspersed (send_body_despite_method() called before, between and after the additions), parsed back and compared in full with the reference head (added in order, derived headers, unsuppressed originals); plus a relative-URI request without any original header x all addition sequences of length 1..=2 over the non-framing, non-Host pool entries. distinct = distinct (flow state, addition sequence) pairs";
 
 const POOL: [(&str, &[u8]); 16] = [("transfer-encoding", b"chunked"), ("cookie", b"k=NEW1"), ("cookie", b"k=NEW2"), ("authorization", b"NEW"), ("content-length", b"0"), ("host", b"h.test"), ("connection", b"close"), ("x-a", b"1"), ("X-MiXeD", b"v"), ("cookie", b"k=ORIG"), ("authorization", b"S3CRET"), ("cookie", b"caf\xe9"), ("x-api-key", b"K3Y"), ("host", b"h.test:80"), ("host", b"h.test:443"), ("expect", b"100-continue")];
 
@@ -89,20 +89,26 @@ fn sequences(max_len: usize) -> Vec<Vec<usize>> {
         out.extend(next.iter().cloned());
         last = next;
     }
-    // long sequences cycling through the pool (host and content-length at most once)
+    // long sequences cycling through the pool (host and content-length at most once); each length also
+    // without any Host among the additions, so that the library derives the Host header itself
     for n in 4..=60usize {
-        let mut s = Vec::new();
-        let mut k = n; // rotate the starting point with n
-        while s.len() < n {
-            let i = k % POOL.len();
-            k += 1;
-            let once = |n: &str| n == "host" || n == "content-length" || n == "transfer-encoding";
-            if once(POOL[i].0) && s.iter().any(|j: &usize| POOL[*j].0 == POOL[i].0) {
-                continue;
+        for with_host in [true, false] {
+            let mut s = Vec::new();
+            let mut k = n; // rotate the starting point with n
+            while s.len() < n {
+                let i = k % POOL.len();
+                k += 1;
+                let once = |n: &str| n == "host" || n == "content-length" || n == "transfer-encoding";
+                if once(POOL[i].0) && s.iter().any(|j: &usize| POOL[*j].0 == POOL[i].0) {
+                    continue;
+                }
+                if !with_host && POOL[i].0 == "host" {
+                    continue;
+                }
+                s.push(i);
             }
-            s.push(i);
+            out.push(s);
         }
-        out.push(s);
     }
     out
 }
